@@ -115,6 +115,9 @@ class Qual:
             if l is not None:
                 pp = Prov(par).local(l)
                 return self.check_prov(par, pp, [], None, depth + 1, seen, sent)
+            if par.kind == "closure" and depth < 8:
+                # captured by the enclosing closure in turn
+                return self.check_prov(par, p, [], None, depth + 1, seen, sent)
         m = re.match(r"^var:(\w+)$", p)
         if m:
             names = {nm: l for l, nm in f.debug_names().items()}
